@@ -123,6 +123,29 @@ def rand_basis(rng, ls, types=None, geom=None, emin=0.02, emax_fn=cap, Kmax=4, M
     return shells, sorted(classes)
 
 
+def window_pair(rng, la, lb, tmin=18.0, tmax=40.0, emin=0.05, emax=60.0):
+    """Two single-primitive-dominated shells whose separation puts the Gaussian product factor exp(-mu R^2) in the
+    window 1e-8 .. 1e-17 ("screening window"): polynomial prefactors of high angular momentum keep the normalised
+    integrals above 1e-8 of their natural scale there, so an l-independent cut-off or a decay shortcut shows."""
+    shells = []
+    for l in (la, lb):
+        K = int(rng.integers(1, 3))
+        e = float(np.exp(rng.uniform(np.log(emin), np.log(min(emax, cap(l))))))
+        exps = [e] + [float(e * rng.uniform(1.5, 6.0)) for _ in range(K - 1)]
+        s = {"l": int(l), "c": [0.0, 0.0, 0.0], "e": exps, "k": rand_coeffs(rng, l, exps, int(rng.integers(1, 3))), "t": str(rng.choice(["c", "p"]))}
+        shells.append(s)
+    a, b = min(shells[0]["e"]), min(shells[1]["e"])
+    mu = a * b / (a + b)
+    t = float(rng.uniform(tmin, tmax))
+    R = float(np.sqrt(t / mu))
+    u = rng.normal(size=3)
+    u /= np.linalg.norm(u)
+    c0 = rng.normal(size=3)
+    shells[0]["c"] = [float(v) for v in c0]
+    shells[1]["c"] = [float(v) for v in c0 + u * R]
+    return shells, ["geom:screening-window", "window:t=%d" % int(t)]
+
+
 # --------------------------------------------------------------------------------- builders
 def build(shells, cls=None):
     """gbasis shell objects from descriptors (fresh arrays every time)."""
